@@ -2,7 +2,6 @@ CONSTANTS S = 4 Step = 1 MinN = 2 MaxN = 4 Degrees = {1}
 CONSTANTS UpperClosed = TRUE FirstClosed = TRUE
 INIT InitRaw
 NEXT Next
-INVARIANT InvBasis
-INVARIANT InvAreas
+INVARIANT InvC34
 INVARIANT InvReject
 CHECK_DEADLOCK FALSE
